@@ -224,9 +224,9 @@ def upper (c : Char) : Char := if 'a' ≤ c ∧ c ≤ 'z' then Char.ofNat (c.toN
 /-! ### _read_file_header -/
 
 structure Header where
-  title : Option Bytes      -- `none`: the key is absent (Python keeps the default `""`)
-  artist : Option Bytes
-  version : Option Bytes
+  title : Bytes             -- `data.get(b"TITLE", b"")`: empty bytes when the key is absent (D43)
+  artist : Bytes
+  version : Bytes
   lnEnd : Bytes             -- `data.get(b"LNOBJ", b"")`
   exbpms : Dict Rat
   samples : Dict Bytes
@@ -254,8 +254,9 @@ def readHeader (data : Dict Bytes) : Except Err Header := do
     match parseFloat v with
     | none => .error (.timing .value)
     | some bpm0 =>
-      .ok { title := dictGet? data "TITLE".toList, artist := dictGet? data "ARTIST".toList,
-            version := dictGet? data "PLAYLEVEL".toList, lnEnd := (dictGet? data "LNOBJ".toList).getD [],
+      .ok { title := (dictGet? data "TITLE".toList).getD Generated.BMS.missingHeaderDefault.toList,
+            artist := (dictGet? data "ARTIST".toList).getD Generated.BMS.missingHeaderDefault.toList,
+            version := (dictGet? data "PLAYLEVEL".toList).getD Generated.BMS.missingHeaderDefault.toList, lnEnd := (dictGet? data "LNOBJ".toList).getD [],
             exbpms := exbpms, samples := samples, bpm0 := bpm0,
             misc := rest.filter (fun kv => kv.1 ≠ "BPM".toList) }
 
